@@ -42,6 +42,15 @@ def _rec(fn, pos, f):
         base['exc'] = True
         base['exception'] = type(ex).__name__
         base['site'] = common.innermost_emmet_frame(ex)
+    # a range is a pair of integers: anything else in a result is judged like a raised exception (the monitor cannot read it)
+    if not base['exc'] and not all(isinstance(r, list) and len(r) == 2 and all(isinstance(x, int) and not isinstance(x, bool) for x in r) for r in base['r']):
+        base['exception'] = 'result is not a list of integer pairs: %r' % (base['r'][:4],)
+        base['exc'] = True
+        base['r'] = []
+        base['names'] = []
+        base['kinds'] = []
+        base['dl'] = []
+        base['m'] = []
     return base
 
 
